@@ -92,7 +92,11 @@ pub fn check_recipe(r: &Recipe, max_len: usize, stats: &mut Stats) -> Result<(),
                     std::hint::black_box(bits);
                     stats.count(&format!("{BUILD}:outcome-value"));
                 }
-                Err(_) => stats.count(&format!("{BUILD}:outcome-clean-panic")),
+                Err(_) => {
+                    stats.count(&format!("{BUILD}:outcome-clean-panic"));
+                    let loc = crate::runner::last_panic_location();
+                    stats.count(&format!("{BUILD}:panic-at:{}", loc.rsplit("/src/").next().unwrap_or("?")));
+                }
             }
         }
     }
